@@ -357,9 +357,10 @@ pub fn run(ctx: &Ctx) {
     }
     // ids of a message obey the same rule
     {
-        let sp = Space::new(&[4096, 4, 2]);
+        static ZB: [u8; 8] = [0x00, 0x01, 0x41, 0x7F, 0x80, 0xFE, 0x20, 0x09];
+        let sp = Space::new(&[4096, 4, 2, 2]);
         let s2 = sp.clone();
-        ctx.run_family(Family::new("c19.message_ids", sp.size(), "all 4096 four-byte strings over the alphabet in each id position (storage ECU, header ECU, APID, CTID) of a storage-header message; parsed without a filter and with a filter that admits the message (ECU id set = the expected header and storage ids)", move |i, loc| {
+        ctx.run_family(Family::new("c19.message_ids", sp.size(), "all 4096 four-byte strings over the alphabet (and over a second one: 00 01 'A' 7F 80 FE blank tab) in each id position (storage ECU, header ECU, APID, CTID) of a storage-header message; parsed without a filter and with a filter that admits the message (ECU id set = the expected header and storage ids)", move |i, loc| {
             let c = s2.coords(i);
             let m = msg_with(0x04, 1, Some(ext(MSTP_LOG, 4, "APP", "CTX")), payload_for(true, Some(MSTP_LOG), 0), Some(storage(1, 2, "ECU")));
             let (mut b, sites) = encode(&m);
@@ -367,14 +368,14 @@ pub fn run(ctx: &Ctx) {
             let (o, _, _) = *sites.sites.iter().find(|s| s.2 == label).unwrap();
             let mut j = c[0];
             for k in 0..4 {
-                b[o + k] = ZA[j % 8];
+                b[o + k] = if c[3] == 0 { ZA[j % 8] } else { ZB[j % 8] };
                 j /= 8;
             }
             let expect = clean_field(&b[o..o + 4]);
             loc.evals += 1;
             loc.transitions += 1;
             loc.traces += 1;
-            loc.state(mix(fnv64(&b), c[2] as u64), true);
+            loc.state(mix(fnv64(&b), c[2] as u64 + 2 * c[3] as u64), true);
             let filter = if c[2] == 1 {
                 let hdr = clean_field(&b[sites.sites.iter().find(|s| s.2 == "ecu").unwrap().0..][..4]);
                 let st = clean_field(&b[12..16]);
